@@ -171,6 +171,14 @@ func (r *Reporter) Finish() int {
 		fmt.Printf("VIOLATION property=%s replay=%s\n", r.Property, p)
 		fmt.Printf("  %s\n", v.Message)
 	}
+	if os.Getenv("VERIF_KEYS") == "all" { // diagnostics: every distinct new key, one per line
+		ks := make([]string, 0, len(r.seenKeys))
+		for k := range r.seenKeys {
+			ks = append(ks, k)
+		}
+		sort.Strings(ks)
+		_ = os.WriteFile(filepath.Join(OutDir(), "evidence", r.Property+"-keys.txt"), []byte(strings.Join(ks, "\n")+"\n"), 0o644)
+	}
 	if os.Getenv("VERIF_KEYS") != "" {
 		for _, v := range r.newV {
 			fmt.Printf("KEY %s\n    %s\n", v.Key, strings.ReplaceAll(v.Message, "\n", "\n    "))
